@@ -109,12 +109,17 @@ def load_schema(repo='/repo', cache_dir=None):
     if cache_dir:
         cp = os.path.join(cache_dir, 'visit_schema-%s.pickle' % ver)
         if os.path.exists(cp) and os.path.getmtime(cp) > os.path.getmtime(__file__):
-            return pickle.load(open(cp, 'rb'))
+            try:
+                return pickle.load(open(cp, 'rb'))
+            except Exception:
+                pass
     s = parse_generated(path)
     s['source'] = path
     if cache_dir:
         os.makedirs(cache_dir, exist_ok=True)
-        pickle.dump(s, open(cp, 'wb'))
+        tmp = cp + '.%d.tmp' % os.getpid()
+        pickle.dump(s, open(tmp, 'wb'))
+        os.replace(tmp, cp)
     return s
 
 
